@@ -32,8 +32,10 @@ try:
     rec["their_meta"] = meta
     runsh = os.path.join(src, "demo", "run.sh")
     t = time.time()
-    usage = open(runsh).read(600)
-    needs_bin = bool(re.search(r"usage: run.sh <llgo-binary>", usage))
+    usage = open(runsh).read(800)
+    um = re.search(r"usage:\s*(?:\./)?run\.sh\s+(.*)", usage)
+    uargs = re.findall(r"<([^>]+)>", um.group(1)) if um else []
+    needs_bin = any("binary" in a or a.strip() == "llgo" for a in uargs)
 
     def demo():
         if not needs_bin:
@@ -42,7 +44,8 @@ try:
         rb, ob = sh(["/tmp/llgo_tc/build_llgo.sh", wt, binp], timeout=2400)
         if rb != 0:
             return 99, "llgo build failed: " + ob[-400:]
-        r = sh(["sh", runsh, binp, wt])
+        argv = [binp if ("binary" in a or a.strip() == "llgo") else wt for a in uargs[:2]]
+        r = sh(["sh", runsh] + argv)
         try:
             os.remove(binp)
         except OSError:
